@@ -294,11 +294,21 @@ Definition op_ok (nenv : nat) (o : op) : bool :=
   end.
 (* the first operation is an add call (before it there is no index file to open or to ask) *)
 Definition starts_with_add (ops : list op) : bool := match ops with OAdd _ _ :: _ => true | _ => false end.
+(* PENDING FIX dbreadonly: FastaIndex._read_header opens the dbm read-only, so a reopened dbm index cannot be extended
+   (OSError / dbm.error, depending on the dbm implementation); such histories are outside the domain in dbm mode *)
+Fixpoint no_add_after_reopen (seen : bool) (ops : list op) : bool :=
+  match ops with
+  | [] => true
+  | OAdd _ _ :: r => negb seen && no_add_after_reopen seen r
+  | OReopen :: r => no_add_after_reopen true r
+  | _ :: r => no_add_after_reopen seen r
+  end.
 Definition wf_hist_C09 (mode : N) (env : list (str * finput)) (ops : list op) : bool :=
   N.ltb mode 2 && negb (match env with [] => true | _ => false end)
   && forallb (fun nf => name_ok (fst nf) && wf_file mode (snd nf)) env
   && nodup_str (map fst env) && nodup_str (concat (map (fun nf => ids_of (snd nf)) env))
-  && starts_with_add ops && forallb (op_ok (length env)) ops.
+  && starts_with_add ops && forallb (op_ok (length env)) ops
+  && (N.eqb mode MODE_BINARY || no_add_after_reopen false ops).
 Definition run_C09_hist (mode : N) (hs path : str) (env : list (str * finput)) (ops : list op) : val :=
   let benv := map (fun nf => (fst nf, file_bytes (snd nf))) env in
   VL [VB (wf_hist_C09 mode env ops); VL (snd (run_ops mode hs benv (init_state path) ops))].
